@@ -155,9 +155,15 @@ impl ZeroPathData {
             return Err(ZiporaError::invalid_data("Path segment too long"));
         }
         
+        // total_length is 16 bits wide: refuse the segment that would not fit
+        // instead of overflowing (panic in checked builds, wrong length otherwise)
+        let total_length = self.total_length
+            .checked_add(data.len() as u16)
+            .ok_or_else(|| ZiporaError::invalid_data("Zero path too long"))?;
+
         self.segments.extend_from_slice(data);
         self.lengths.push(data.len() as u8);
-        self.total_length += data.len() as u16;
+        self.total_length = total_length;
         
         Ok(())
     }
